@@ -17,6 +17,7 @@ case "$1" in
   C09) run python3-vt checks/c09.py ;;
   C10) run python3-vt checks/c10.py ;;
   C15) run python3-vt checks/c15.py ;;
+  C16) run python3-vt checks/c16.py ;;
   C17) run python3-vt checks/c17.py ;;
   C12) run python3-vt checks/c12.py ;;
   C13) run python3-vt checks/c13.py ;;
